@@ -164,6 +164,10 @@ SCOPES = {
     # get_delegate and the smart types' check/convert writing none of them
     'C06': lambda fi: fi.module in (L + 'runner', L + 'specs',
                                     L + 'yaqltypes'),
+    # finalisation must not depend on state remembered between calls
+    'C10': lambda fi: fi.module in ('yaql', 'yaql.yaql_interface',
+                                    L + 'expressions') or (
+        fi.module == L + 'utils' and fi.qualname.startswith('convert_')),
     'C07': lambda fi: fi.module in (SL + 'yaqlized', 'yaql.yaqlization'),
     'C13': lambda fi: fi.module in (SL + 'collections', SL + 'queries'),
     'C19': lambda fi: fi.module in (SL + 'strings', SL + 'regex'),
